@@ -1,200 +1,361 @@
-"""C18 parallelize — necessary conditions of the queue protocol only (DESIGN §5 C18). Interleavings are NOT decided."""
+"""C18 parallelize — necessary conditions of the queue protocol only (DESIGN §5 C18). Interleavings are NOT decided.
+
+All clauses are stated over the channel model of rules/channels.py: queues are compared by identity (creation site), actors are
+found by topology (who is spawned as what and reads which queue), never by parameter name or position."""
 import ast
 
-from rules import stream
-from sa.deps import Facts, names_in, pseudo
-from sa.loader import AnalysisError, FuncInfo, own_nodes
-from sa.model import rowloop_signature, row_loops, u, where
+from rules import channels, stream
+from sa.deps import pseudo
+from sa.loader import AnalysisError, own_nodes
+from sa.model import norm_compare, row_loops, rowloop_signature, u, where
 from sa.paths import BREAK, CONTINUE, FALL, RAISE, RETURN, Enumerator, path_nodes
+from sa.pattern import match_expr
 
 P = 'dataflows.processors.parallelize'
 
 
-def puts(nodes, q, what=None):
+def topology(ctx):
+    repo = ctx.repo
+    step = repo.func(P + ':parallelize.func')
+    # the consumer: the generator the selected resource is handed to
+    roots = []
+    for c in own_nodes(step.node):
+        if isinstance(c, ast.Call):
+            tg = [t for t in ctx.res._resolve_callee(c.func, step.module, step) if hasattr(t, 'is_generator') and t.is_generator]
+            roots += tg
+    if len(roots) != 1:
+        raise AnalysisError('parallelize.func: expected one row-stream wrapper, found %d' % len(roots))
+    model, consumer = channels.build(ctx, roots[0])
+    workers = [a for a in model.actors if a.kind == 'process']
+    threads = [a for a in model.actors if a.kind == 'thread']
+    if len(workers) != 1 or len(threads) != 2:
+        raise AnalysisError('parallelize: expected one worker function and two thread functions, found %s' % model.actors)
+    W = workers[0]
+    gets = lambda a: {id(o.chan): o.chan for o in a.ops if o.op == 'get'}
+    if len(gets(W)) != 1 or len(gets(consumer)) != 1:
+        raise AnalysisError('parallelize: worker / consumer do not read exactly one queue each')
+    I = list(gets(W).values())[0]
+    D = list(gets(consumer).values())[0]
+    outs = {id(o.chan): o.chan for o in W.ops if o.op == 'put'}
+    if len(outs) != 1:
+        raise AnalysisError('parallelize: workers write to %d queues' % len(outs))
+    O = list(outs.values())[0]
+    F = [a for a in threads if O in gets(a).values()]
+    Pr = [a for a in threads if not gets(a)]
+    if len(F) != 1 or len(Pr) != 1:
+        raise AnalysisError('parallelize: collector / producer not identified among %s' % threads)
+    return model, consumer, W, F[0], Pr[0], I, O, D
+
+
+def get_var(loop, chan, actor):
+    """name assigned from <chan>.get() in the loop body"""
+    for n in ast.walk(loop):
+        if isinstance(n, ast.Assign) and isinstance(n.value, ast.Call) and isinstance(n.value.func, ast.Attribute) \
+                and n.value.func.attr == 'get' and actor.chan_of(n.value.func.value) is chan and pseudo(n.targets[0]):
+            return pseudo(n.targets[0])
+    return None
+
+
+def marker_test(p, var):
+    """polarity of the `var is None` decision on this path (None = not decided)"""
+    for t, pol in p.guards():
+        t, pol = norm_compare(t, pol)
+        if match_expr('%s is None' % var, t) is not None or match_expr('%s == None' % var, t) is not None:
+            return pol
+    return None
+
+
+def chan_calls(nodes, actor, chan, op, what=None):
     out = []
     for c in nodes:
-        if isinstance(c, ast.Call) and isinstance(c.func, ast.Attribute) and c.func.attr == 'put' and pseudo(c.func.value) == q:
-            if what is None or u(c.args[0]) == what:
+        if isinstance(c, ast.Call) and isinstance(c.func, ast.Attribute) and c.func.attr == op and actor.chan_of(c.func.value) is chan:
+            if what is None:
+                out.append(c)
+            elif what == 'marker' and c.args and isinstance(c.args[0], ast.Constant) and c.args[0].value is None:
+                out.append(c)
+            elif what not in (None, 'marker') and c.args and pseudo(c.args[0]) == what:
                 out.append(c)
     return out
 
 
 def check(ctx):
     run, repo, res = ctx.run, ctx.repo, ctx.res
-    prod, fetch, work = repo.func(P + ':producer'), repo.func(P + ':fetcher'), repo.func(P + ':work')
-    fork, init = repo.func(P + ':fork'), repo.func(P + ':init_mp')
+    model, C, W, F, Pr, I, O, D = topology(ctx)
+    prod, fetch, work, fork = Pr.fi, F.fi, W.fi, C.fi
+    run.analysed['channel model'] = dict(actors=[repr(a) for a in model.actors], queues=[repr(c) for c in model.chans],
+                                         ops=[repr(o) for a in model.actors for o in a.ops],
+                                         roles=dict(worker_input=repr(I), worker_output=repr(O), delivery=repr(D)))
     run.rule('R21', 'QUEUE-PROTOCOL (necessary conditions): (a) the number of end markers the producer enqueues, the number of workers '
                     'started and the number of markers the collector waits for are the same value; (b) the producer enqueues the markers '
                     'after its row loop; (c) it puts every row on exactly one queue; (d) a worker forwards each row it took exactly '
                     'once and emits exactly one marker on every exit; (e) the collector forwards non-markers, emits its single marker '
-                    'only when the expected count reaches zero, then stops; (f) the consumer yields everything until the marker')
-    # (a)
-    np_ = 'num_processors'
-    ml = [n for n in own_nodes(prod.node) if isinstance(n, ast.For) and isinstance(n.iter, ast.Call) and u(n.iter.func) == 'range']
-    ok_a = len(ml) == 1 and pseudo(ml[0].iter.args[0]) in prod.params and len(puts(list(ast.walk(ml[0])), prod.params[1], 'None')) == 1
-    pidx = prod.params.index(pseudo(ml[0].iter.args[0])) if ok_a else None
-    procs = [n for n in ast.walk(init.node) if isinstance(n, ast.ListComp) and 'mp.Process' in u(n.elt)]
-    ok_w = len(procs) == 1 and u(procs[0].generators[0].iter) == 'range(%s)' % init.params[0] and 'target=work' in u(procs[0].elt)
-    starts = [n for n in own_nodes(init.node) if isinstance(n, ast.For) and pseudo(n.iter) == 'processes' and '.start()' in u(n)]
-    ok_w = ok_w and len(starts) == 1
-    th = [c for c in own_nodes(init.node) if isinstance(c, ast.Call) and u(c.func) == 'threading.Thread']
-    ok_f = len(th) == 1
-    if ok_f:
-        kw = {k.arg: k.value for k in th[0].keywords}
-        ok_f = pseudo(kw.get('target')) == 'fetcher' and isinstance(kw.get('args'), ast.Tuple) and \
-            pseudo(kw['args'].elts[fetch.params.index('num_processors')]) == init.params[0]
-    exp = [n for n in own_nodes(fetch.node) if isinstance(n, ast.Assign) and pseudo(n.value) == 'num_processors']
-    ok_f = ok_f and len(exp) == 1
-    # fork passes the one value to both
-    fk = Facts(fork, include_nested=False)
-    tp = [c for c in own_nodes(fork.node) if isinstance(c, ast.Call) and u(c.func) == 'threading.Thread']
-    ok_fk = len(tp) == 1
-    if ok_fk:
-        kw = {k.arg: k.value for k in tp[0].keywords}
-        ok_fk = pseudo(kw.get('target')) == 'producer' and isinstance(kw.get('args'), ast.Tuple) and pidx is not None and \
-            pseudo(kw['args'].elts[pidx]) == np_
-    ic = [c for c in own_nodes(fork.node) if isinstance(c, ast.Call) and u(c.func) == 'init_mp']
-    ok_fk = ok_fk and len(ic) == 1 and pseudo(ic[0].args[0]) == np_
-    run.check(ok_a and ok_w and ok_f and ok_fk, 'R21', fork.where, fork.qualname,
-              '(a) markers enqueued == workers started == markers awaited == num_processors',
-              'producer / workers / collector do not agree on the number of end markers: the run ends early (rows lost) or never ends')
-    # (b) (c)
+                    'only when the expected count reaches zero, then stops; (f) the consumer yields everything until the marker; '
+                    '(g) protocol queues are read and written blocking, without timeouts; (h) whoever puts rows on a queue also '
+                    'terminates them: on a multi-process queue only a process\'s own later marker is ordered after its rows')
+    # ---- (a) one value for: markers enqueued, workers started, markers awaited
+    ml = []
+    for n in own_nodes(prod.node):
+        if isinstance(n, ast.For) and isinstance(n.iter, ast.Call) and u(n.iter.func) == 'range' and len(n.iter.args) == 1 and \
+                chan_calls(list(ast.walk(n)), Pr, I, 'put', 'marker'):
+            ml.append(n)
+    ok_a = len(ml) == 1 and len(chan_calls(list(ast.walk(ml[0])), Pr, I, 'put', 'marker')) == 1 and \
+        len(chan_calls(list(ast.walk(prod.node)), Pr, I, 'put', 'marker')) == 1
+    n_markers = Pr.resolve(ml[0].iter.args[0]) if ok_a else None
+    n_workers = u(W.count) if isinstance(W.count, ast.AST) else (repr(W.count) if W.count is not None else None)
+    # all spawned processes are started
+    started = False
+    if W.handle:
+        for n in ast.walk(fork.node):
+            if isinstance(n, ast.For) and pseudo(n.iter) == W.handle and isinstance(n.target, ast.Name) and \
+                    any(isinstance(c, ast.Call) and isinstance(c.func, ast.Attribute) and c.func.attr == 'start'
+                        and pseudo(c.func.value) == n.target.id for c in ast.walk(n)):
+                started = True
+    cnts = [n for n in own_nodes(fetch.node) if isinstance(n, ast.Assign) and pseudo(n.targets[0]) and pseudo(n.value) in fetch.params
+            and not isinstance(F.env.get(pseudo(n.value)), channels.Chan)]
+    cnt = None
+    n_awaited = None
+    floop = [n for n in own_nodes(fetch.node) if isinstance(n, ast.While)]
+    if len(cnts) == 1:
+        cnt = pseudo(cnts[0].targets[0])
+        n_awaited = F.resolve(cnts[0].value)
+    else:
+        # the parameter itself may be counted down
+        decs = [n for n in ast.walk(fetch.node) if isinstance(n, ast.AugAssign) and isinstance(n.op, ast.Sub) and pseudo(n.target) in fetch.params]
+        if len(decs) == 1:
+            cnt = pseudo(decs[0].target)
+            n_awaited = F.resolve(decs[0].target)
+    run.check(ok_a and started and n_markers is not None and n_markers == n_workers == n_awaited, 'R21', fork.where, fork.qualname,
+              '(a) markers enqueued == workers started == markers awaited',
+              'producer / workers / collector do not agree on the number of end markers (%s / %s / %s): the run ends early '
+              '(rows lost) or never ends' % (n_markers, n_workers, n_awaited))
+    # ---- (b) (c) producer
     rl = row_loops(prod)
     if len(rl) != 1:
         raise AnalysisError('producer: row loop not found')
     loop, var, _ = rl[0]
-    q_in, q_int = prod.params[1], prod.params[2]
+    pred_params = [p for p in prod.params if not isinstance(Pr.env.get(p), channels.Chan)]
     sigs = rowloop_signature(prod, loop, var)
-    okc = len(sigs) == 2
+    okc = len(sigs) >= 2
+    decided = set()
     for s in sigs:
-        pi, pn = puts(s.calls, q_in, var), puts(s.calls, q_int, var)
-        pred = [pol for t, pol in s.guards if isinstance(t, ast.Call) and pseudo(t.func) == 'predicate']
-        okc = okc and len(pred) == 1 and len(pi) + len(pn) == 1 and (len(pi) == 1) == pred[0] and s.term == FALL and \
-            not puts(s.calls, q_in, 'None') and not puts(s.calls, q_int, 'None')
-    run.check(okc, 'R21', where(repo, loop), prod.qualname, '(c) predicate(row): q_in.put(row) else q_internal.put(row), exactly one',
+        puts_all = [c for c in s.calls if isinstance(c.func, ast.Attribute) and c.func.attr in ('put', 'put_nowait')
+                    and Pr.chan_of(c.func.value) is not None]
+        pred = []
+        for t, pol in s.guards:
+            t, pol = norm_compare(t, pol)
+            if isinstance(t, ast.Call) and pseudo(t.func) in pred_params and [pseudo(a) for a in t.args] == [var]:
+                pred.append(pol)
+        good = len(pred) == 1 and len(s.guards) == 1 and len(puts_all) == 1 and s.term in (FALL, CONTINUE) and \
+            puts_all[0].args and pseudo(puts_all[0].args[0]) == var
+        if good:
+            target = Pr.chan_of(puts_all[0].func.value)
+            good = (target is I) if pred[0] else (target is D or target is O)
+            decided.add(pred[0])
+        okc = okc and good
+    run.check(okc and decided == {True, False}, 'R21', where(repo, loop), prod.qualname,
+              '(c) predicate(row): worker input queue gets the row, else it bypasses the workers; exactly one put per row',
               'a row is enqueued twice, not at all, or on the wrong queue')
-    okb = ok_a and ml[0].lineno > loop.lineno and ml[0] in stmts_same_block(loop)
+    okb = ok_a and channels.runs_after(ml[0], loop, prod.node) and not channels.in_handler(ml[0], prod.node)
     run.check(okb, 'R21', where(repo, loop), prod.qualname, '(b) end markers after the row loop',
               'end markers can overtake rows: workers stop while rows are still being produced')
-    # (d) worker
+    # ---- (d) worker
     wl = [n for n in ast.walk(work.node) if isinstance(n, ast.While)]
     okd = len(wl) == 1
     if okd:
         w = wl[0]
-        en = Enumerator(where=work.qualname)
-        got = None
-        for p in en.body_paths(w):
+        rv = get_var(w, I, W)
+        fn_params = [p for p in work.params if not isinstance(W.env.get(p), channels.Chan)]
+        okd = rv is not None
+        for p in (Enumerator(where=work.qualname).body_paths(w) if okd else []):
             nodes = list(path_nodes(p, into_loops=True))
-            gets = [c for c in nodes if isinstance(c, ast.Call) and u(c.func) == '%s.get' % work.params[0]]
-            isnone = [pol for t, pol in p.guards() if u(t) == 'row is None']
-            fw = puts(nodes, work.params[1], 'row')
-            mk = puts(nodes, work.params[1], 'None')
-            in_handler = any(it.kind == 'handler' for it in p.items)
-            if not isnone:
+            gets = chan_calls(nodes, W, I, 'get')
+            mt = marker_test(p, rv)
+            fw = chan_calls(nodes, W, O, 'put', rv)
+            mk = chan_calls(nodes, W, O, 'put', 'marker')
+            applied = [c for c in nodes if isinstance(c, ast.Call) and pseudo(c.func) in fn_params]
+            failed = any(it.kind == 'handler' for it in p.items)
+            if mt is None:
                 okd = False
-            elif isnone[0]:
-                okd = okd and p.term == BREAK and not fw and not mk and len(gets) == 1
+            elif mt:
+                okd = okd and p.term == BREAK and not fw and not mk and len(gets) == 1 and not applied
             else:
                 # normal path and the row_func-raised path both forward the row exactly once
-                okd = okd and len(fw) == 1 and not mk and p.term == FALL and len(gets) == 1
-        # exactly one marker, in finally
+                okd = okd and len(fw) == 1 and not mk and p.term in (FALL, CONTINUE) and len(gets) == 1 and len(applied) == 1 and \
+                    [pseudo(a) for a in applied[0].args] == [rv]
         trys = [n for n in own_nodes(work.node) if isinstance(n, ast.Try) and n.finalbody]
-        okd = okd and len(trys) == 1 and len(puts(list(ast.walk(ast.Module(body=trys[0].finalbody, type_ignores=[]))), work.params[1], 'None')) == 1 \
-            and len(puts(list(ast.walk(work.node)), work.params[1], 'None')) == 1 and w in trys[0].body
-    run.check(okd, 'R21', work.where, work.qualname, '(d) take one; marker -> stop; else forward the row once; finally: one marker',
+        allmk = chan_calls(list(ast.walk(work.node)), W, O, 'put', 'marker')
+        okd = okd and len(allmk) == 1 and ((len(trys) == 1 and channels.in_finally(allmk[0], work.node) and w in list(ast.walk(trys[0])))
+                                            or (not trys and channels.runs_after(allmk[0], w, work.node)))
+        okd = okd and not channels.enclosing_loops(allmk[0], work.node)
+    run.check(okd, 'R21', work.where, work.qualname, '(d) take one; marker -> stop; else apply once, forward the row once; finally: one marker',
               'a worker drops or duplicates a row, or does not emit exactly one end marker on every exit')
-    # (e) collector
-    fl = [n for n in own_nodes(fetch.node) if isinstance(n, ast.While)]
-    oke = len(fl) == 1
+    # ---- (e) collector
+    oke = len(floop) == 1 and cnt is not None
     if oke:
-        cnt = pseudo(exp[0].targets[0]) if exp else None
-        for p in Enumerator(where=fetch.qualname).body_paths(fl[0]):
+        rv = get_var(floop[0], O, F)
+        oke = rv is not None
+        for p in (Enumerator(where=fetch.qualname).body_paths(floop[0]) if oke else []):
             nodes = list(path_nodes(p))
-            isnone = [pol for t, pol in p.guards() if u(t) == 'row is None']
-            zero = [pol for t, pol in p.guards() if u(t) == '%s == 0' % cnt]
-            fw = puts(nodes, fetch.params[1], 'row')
-            mk = puts(nodes, fetch.params[1], 'None')
+            mt = marker_test(p, rv)
+            zero = None
+            for t, pol in p.guards():
+                t, pol = norm_compare(t, pol)
+                if match_expr('%s == 0' % cnt, t) is not None or match_expr('%s <= 0' % cnt, t) is not None:
+                    zero = pol
+                elif match_expr('%s > 0' % cnt, t) is not None:
+                    zero = not pol
+                elif pseudo(t) == cnt:
+                    zero = not pol
+            fw = chan_calls(nodes, F, D, 'put', rv)
+            mk = chan_calls(nodes, F, D, 'put', 'marker')
             dec = [n for n in nodes if isinstance(n, ast.AugAssign) and isinstance(n.op, ast.Sub) and pseudo(n.target) == cnt
                    and u(n.value) == '1']
-            if not isnone:
+            gets = chan_calls(nodes, F, O, 'get')
+            if mt is None or len(gets) != 1:
                 oke = False
-            elif not isnone[0]:
-                oke = oke and len(fw) == 1 and not mk and not dec and p.term == FALL
-            elif zero and zero[0]:
-                oke = oke and len(dec) == 1 and len(mk) == 1 and not fw and p.term == BREAK
-            elif zero:
-                oke = oke and len(dec) == 1 and not mk and not fw and p.term == CONTINUE
+            elif not mt:
+                oke = oke and len(fw) == 1 and not mk and not dec and p.term in (FALL, CONTINUE)
+            elif zero is True:
+                oke = oke and len(dec) == 1 and len(mk) == 1 and not fw and p.term in (BREAK, RETURN) and \
+                    dec[0].lineno <= mk[0].lineno
+            elif zero is False:
+                oke = oke and len(dec) == 1 and not mk and not fw and p.term in (CONTINUE, FALL)
             else:
                 oke = False
     run.check(oke, 'R21', fetch.where, fetch.qualname, '(e) forward rows; count markers; single marker at zero, then stop',
               'the collector signals completion before all workers finished (rows lost) or never')
-    # (f) consumer loop in fork
+    # ---- (f) consumer loop
     cl = [n for n in ast.walk(fork.node) if isinstance(n, ast.While)]
     okf = len(cl) == 1
     if okf:
-        for p in Enumerator(where=fork.qualname).body_paths(cl[0]):
+        rv = get_var(cl[0], D, C)
+        okf = rv is not None
+        for p in (Enumerator(where=fork.qualname).body_paths(cl[0]) if okf else []):
             nodes = list(path_nodes(p))
-            isnone = [pol for t, pol in p.guards() if u(t) == 'row is None']
-            ys = [y for y in nodes if isinstance(y, ast.Yield)]
-            gets = [c for c in nodes if isinstance(c, ast.Call) and u(c.func) == 'q_internal.get']
-            if not isnone or len(gets) != 1:
+            mt = marker_test(p, rv)
+            ys = [y for y in nodes if isinstance(y, (ast.Yield, ast.YieldFrom))]
+            gets = chan_calls(nodes, C, D, 'get')
+            if mt is None or len(gets) != 1:
                 okf = False
-            elif isnone[0]:
+            elif mt:
                 okf = okf and p.term == BREAK and not ys
             else:
-                okf = okf and len(ys) == 1 and pseudo(ys[0].value) == 'row' and p.term == FALL
-        # joins after the loop
-        after = [u(s) for s in stmts_same_block(cl[0]) if s.lineno > cl[0].lineno]
-        okf = okf and any('t_prod.join()' in a for a in after) and any('fini_mp(processes, t_fetch)' in a for a in after)
-    run.check(okf, 'R21', fork.where, fork.qualname, '(f) yield until the marker, then join producer and workers',
-              'the consumer stops before the marker or drops rows')
-    # lazy start: rows before the first selected row are yielded directly; the first selected row is pushed back
+                okf = okf and len(ys) == 1 and isinstance(ys[0], ast.Yield) and pseudo(ys[0].value) == rv and p.term in (FALL, CONTINUE)
+        # waiting for the producer / workers / collector happens only after the stream has been drained
+        for n in ast.walk(fork.node):
+            if isinstance(n, ast.Call) and isinstance(n.func, ast.Attribute) and n.func.attr == 'join' and \
+                    not isinstance(n.func.value, ast.Constant) and okf:
+                if not channels.runs_after(n, cl[0], fork.node):
+                    okf = False
+    run.check(okf, 'R21', fork.where, fork.qualname, '(f) yield until the marker; joins only after the stream is drained',
+              'the consumer stops before the marker, drops rows, or waits for its helpers before draining their output')
+    # ---- lazy start: rows before the first selected row are yielded directly; the first selected row is pushed back
     fr = row_loops(fork)
     okl = len(fr) == 1
     if okl:
-        loop, var, _ = fr[0]
-        for p in Enumerator(where=fork.qualname).body_paths(loop):
-            pred = [pol for t, pol in p.guards() if isinstance(t, ast.Call) and pseudo(t.func) == 'predicate']
+        loop_, var_, _ = fr[0]
+        pparams = [p for p in fork.params]
+        seenp = set()
+        for p in Enumerator(where=fork.qualname).body_paths(loop_):
+            pred = []
+            for t, pol in p.guards():
+                t, pol = norm_compare(t, pol)
+                if isinstance(t, ast.Call) and pseudo(t.func) in pparams and [pseudo(a) for a in t.args] == [var_]:
+                    pred.append(pol)
             if not pred:
                 okl = False
             elif not pred[0]:
+                seenp.add(False)
                 ys = [y for y in path_nodes(p) if isinstance(y, ast.Yield)]
-                okl = okl and len(ys) == 1 and pseudo(ys[0].value) == var
+                okl = okl and len(ys) == 1 and pseudo(ys[0].value) == var_
             else:
+                seenp.add(True)
                 chain = [n for n in path_nodes(p) if isinstance(n, ast.Assign) and isinstance(n.value, ast.Call)
                          and res.external_name(n.value) == 'itertools.chain']
-                okl = okl and len(chain) == 1 and u(chain[0].value.args[0]) == '[%s]' % var and \
-                    pseudo(chain[0].value.args[1]) == pseudo(loop.iter) == pseudo(chain[0].targets[0])
+                okl = okl and len(chain) == 1 and len(chain[0].value.args) == 2 and \
+                    match_expr('[%s]' % var_, chain[0].value.args[0]) is not None and \
+                    pseudo(chain[0].value.args[1]) == pseudo(loop_.iter)
+                if okl:
+                    # the re-assembled stream is what the producer iterates
+                    src = Pr.env.get([p_ for p_ in prod.params if p_ == pseudo(row_loops(prod)[0][0].iter)][0]) \
+                        if pseudo(row_loops(prod)[0][0].iter) in prod.params else None
+                    okl = src is not None and not isinstance(src, channels.Chan) and pseudo(src) == pseudo(chain[0].targets[0])
+        okl = okl and seenp == {True, False}
     run.check(okl, 'R21', fork.where, fork.qualname, 'unselected rows before the first selected one are yielded; that row is pushed back',
               'the first selected row (or rows before it) is lost when the parallel section starts')
-    # (g) every queue read of the protocol blocks without a timeout: a timed / non-blocking read makes delivery depend on timing
-    #     (an idle worker would give up, emit its end marker and rows arriving later are lost)
-    qnames = set()
-    for f in (prod, fetch, work, fork, init):
-        for n in ast.walk(f.node):
-            if isinstance(n, ast.Call) and isinstance(n.func, ast.Attribute) and n.func.attr in ('get', 'get_nowait', 'put_nowait') \
-                    and pseudo(n.func.value) and pseudo(n.func.value).startswith('q_'):
-                ok_g = n.func.attr == 'get' and not n.args and not n.keywords
-                run.check(ok_g, 'R21', where(repo, n), f.qualname, '(g) blocking read ' + u(n),
-                          'a protocol queue is read with a timeout / without blocking: under a slow producer the reader gives up, '
-                          'the end-marker count is reached early and later rows are lost')
-            if isinstance(n, ast.Call) and isinstance(n.func, ast.Attribute) and n.func.attr == 'put' \
-                    and pseudo(n.func.value) and pseudo(n.func.value).startswith('q_'):
-                ok_p = len(n.args) == 1 and not n.keywords
-                run.check(ok_p, 'R21', where(repo, n), f.qualname, '(g) blocking put ' + u(n),
-                          'a protocol queue is written with a timeout / without blocking: a full queue drops the row')
+    # ---- (g) every queue operation of the protocol blocks without a timeout
+    for o in model.ops():
+        n = o.node
+        if o.op == 'get':
+            ok_g = n.func.attr == 'get' and not n.args and not n.keywords
+            run.check(ok_g, 'R21', where(repo, n), o.actor.fi.qualname, '(g) blocking read ' + u(n),
+                      'a protocol queue is read with a timeout / without blocking: under a slow producer the reader gives up, '
+                      'the end-marker count is reached early and later rows are lost')
+        else:
+            ok_p = n.func.attr == 'put' and len(n.args) == 1 and not n.keywords
+            run.check(ok_p, 'R21', where(repo, n), o.actor.fi.qualname, '(g) blocking put ' + u(n),
+                      'a protocol queue is written with a timeout / without blocking: a full queue drops the row')
+    for ch in model.chans:
+        ctor = ch.node.value
+        run.check(not ctor.args and not ctor.keywords and ch.kind in ('mp', 'thread'), 'R21', where(repo, ch.node),
+                  fork.qualname, '(g) unbounded FIFO queue ' + u(ch.node),
+                  'a protocol queue is bounded or not FIFO: the producer thread can block against a consumer that waits for it, or '
+                  'markers overtake rows')
+    # ---- (h) whoever puts rows on a queue also terminates them
+    for ch in model.chans:
+        data = [o for o in model.ops(chan=ch, op='put', what='data') if not channels.in_handler(o.node, o.actor.fi.node)]
+        marks = [o for o in model.ops(chan=ch, op='put', what='marker') if not channels.in_handler(o.node, o.actor.fi.node)]
+        for o in data:
+            own = [m for m in marks if m.actor is o.actor]
+            if ch.kind == 'mp':
+                ok_h = bool(own)
+                why = ('rows are put on the multi-process queue %s by %s, which never puts an end marker on it: another process\'s '
+                       'marker is not ordered after these rows (each putter has its own feeder), so the reader can see the last '
+                       'marker first and drop them' % (ch.name, o.actor.fi.name))
+            else:
+                ok_h = bool(own) or precedes(model, o.actor, ch, set())
+                why = ('rows put on %s by %s are not ordered before the end marker another actor puts there' % (ch.name, o.actor.fi.name))
+            run.check(ok_h, 'R21', where(repo, o.node), o.actor.fi.qualname, '(h) %s on %s' % (u(o.node), ch.name), why)
     func = repo.func(P + ':parallelize.func')
     stream.r6_identity(ctx, [func])
     stream.r6_count_agreement(ctx, [func])
-    run.trusted += ['queue.Queue / multiprocessing.Queue are FIFO per producer']
+    run.trusted += ['queue.Queue is FIFO and put() is synchronous; multiprocessing.Queue is FIFO per putting process only']
     run.not_decided += ['"for every interleaving": no static argument in reach bounds schedules; that needs a model checker '
                         '(a different technique family)', 'failure paths (C04 known findings: producer / worker swallow errors)',
                         'row_func applied exactly once: the worker calls it once per taken row on the non-failing path only']
-    return ('Necessary conditions of the end-marker protocol are checked on every path of producer, worker, collector and consumer: '
-            'marker counts derive from one value, markers follow rows, each row is put / forwarded exactly once, the collector '
-            'signals completion only at zero. Schedules themselves are not explored.', [])
+    return ('A channel model (queues by creation site, actors by spawn site, parameters bound to what the root passed) is built '
+            'from the source; necessary conditions of the end-marker protocol are checked on every path of producer, worker, '
+            'collector and consumer: marker counts derive from one value, markers follow rows, each row is put / forwarded exactly '
+            'once, the collector signals completion only at zero, and every actor that puts rows on a queue is ordered before '
+            'that queue\'s end marker. Schedules themselves are not explored.', [])
 
 
-def stmts_same_block(node):
-    from sa.model import block_of
-    return block_of(node)
+def precedes(model, actor, chan, seen):
+    """Are all of `actor`'s puts complete before any end marker is put on `chan` (a thread queue)?  True if every marker putter B of
+    chan emits it only after having read the end marker(s) of a queue Q' on which `actor` itself puts its markers after its
+    loop, or, recursively, of a queue all of whose marker putters are preceded by `actor`."""
+    if id(chan) in seen:
+        return False
+    seen = seen | {id(chan)}
+    marks = [m for m in model.ops(chan=chan, op='put', what='marker') if not channels.in_handler(m.node, m.actor.fi.node)]
+    if not marks:
+        return False
+    for m in marks:
+        if m.actor is actor:
+            continue
+        reads = {id(o.chan): o.chan for o in m.actor.ops if o.op == 'get'}
+        ok = False
+        for q in reads.values():
+            qm = [x for x in model.ops(chan=q, op='put', what='marker') if not channels.in_handler(x.node, x.actor.fi.node)]
+            if qm and all(x.actor is actor for x in qm):
+                # actor's own marker on q: must come after its data loop
+                loops = [l for l in ast.walk(actor.fi.node) if isinstance(l, (ast.For, ast.While))
+                         and any(o.what == 'data' and o.node in list(ast.walk(l)) for o in actor.ops if o.op == 'put')]
+                ok = all(channels.runs_after(x.node, l, actor.fi.node) for x in qm for l in loops)
+            elif qm:
+                ok = precedes(model, actor, q, seen)
+            if ok:
+                break
+        if not ok:
+            return False
+    return True
